@@ -34,8 +34,13 @@ def make_run(seed, i):
     rng = seeds.derive(seed, PROP, i, "workload")
     n = rng.choice([1, 2, 2, 2, 3, 3, 4, 4, 5, 6, 8])
     specs = []
+    # bias: some runs make every thread render a nested layout with shared sub-models, so that several threads hold a
+    # NON-EMPTY absolute-reference mapping at the same time (the state in which a shared context would be visible)
+    shared_nested = rng.random() < 0.35
+    fixed = dict(structures=["nested"], p_nested=0.5, p_list_obj=0.25, n_shapes=rng.randint(3, 5), depth=3,
+                 p_variant=0.0, n_models=1, p_missing=0.0, width=rng.randint(2, 4)) if shared_nested else {}
     for t in range(n):
-        w = gen_workload(seeds.derive(seed, PROP, i, "thread", t))
+        w = gen_workload(seeds.derive(seed, PROP, i, "thread", t), **fixed)
         specs.append({"models": w["models"], "options": w["options"]})
     srng = seeds.derive(seed, PROP, i, "schedule")
     sched = {"seed": srng.getrandbits(48), "mean_gap": srng.choice([2, 3, 10, 30, 100, 300, 1000, 3000]),
@@ -192,7 +197,8 @@ def run(ctx):
                     "clause": "thread outcome == alone outcome",
                 }, f"{len(mrun['specs'])} thread(s), {len(rp['switches'])} switch(es): " + describe(rr[t], oo["outcomes"][t]))
     warn = [k for k in ("switch_while_2_in_generate_code", "switch_in_context_manager",
-                        "thread_started_after_other_finished", "switch_in_models_meta") if not probes.get(k)]
+                        "thread_started_after_other_finished", "switch_in_models_meta",
+                        "switch_while_2_nonempty_mappings") if not probes.get(k)]
     return rep.finish({
         "evaluations": evaluations,
         "distinct_nontrivial": len(nontrivial),
